@@ -16,6 +16,20 @@ def bound_of(atom):
     return {k.items[0].value: k.items[1] for k in atom[2]}
 
 
+def transform_events(p):
+    """events of the path with, inside the per-field loop, only those of the body state that transforms"""
+    events = list(p.events)
+    for lp in p.state.loops:
+        hit = [b for b in lp['states'] if any(e.kind == 'call' and e.data.get('callee') == 'fourier.dft2'
+                                               for e in b.events[lp['n_pre_events']:])]
+        if hit:
+            mine = {id(e) for e in hit[0].events}
+            others = {id(e) for b in lp['states'] if b is not hit[0] for e in b.events} - mine
+            events = [e for e in events if id(e) not in others]
+            break
+    return events
+
+
 class DftFlow:
     """One returning path of propagate_dft under a configuration."""
 
